@@ -936,6 +936,7 @@ def prove_eq(a, b, extra=(), approx=False):
         return check(pc0 + relevant(pc0 + [goal0]) + [goal0], want_model=True)
     lhs, rhs = _cross(a, b)
     if lhs.get_id() == rhs.get_id():
+        C.stats['syntactic'] = C.stats.get('syntactic', 0) + 1
         return 'unsat', None        # syntactically identical terms (z3 hash-consing)
     pc = C.pc() + list(extra)
     goal = lhs != rhs
